@@ -1388,6 +1388,122 @@ func runScenario(c *vh.Ctx, seed uint64, layout, kind string, onlyClass string) 
 		check("hist-genuine-last", base, x, true, expect{})
 	}
 
+	// --- argument layouts (layout.go): the same values as exact copies, with spare capacity, and as
+	// adjacent sub-slices of one flat record in every neighbour order
+	if onlyClass == "" {
+		rc.Class = "argument-layouts"
+		viol := func(key, what string) { c.Res.Violate("monitor", layout+":"+key, what, rc) }
+		f := base.f
+		body := base.bodyBytes()
+		segsRaw := hashedSegs(nil, base)
+		vhSpecs := func(f fields, sig []byte, xx vctx) []argSpec {
+			return []argSpec{{"PrevHash", f.Prev}, {"IssuerVkey", f.Issuer}, {"VrfKey", f.VrfKey}, {"VrfProof", f.Proof}, {"VrfOutput", f.Out},
+				{"KesSignature", sig}, {"HeaderBodyCbor", body}, {"NonceVrfProof", f.NonceProof}, {"NonceVrfOutput", f.NonceOut},
+				{"OpCertHotVkey", f.Hot}, {"OpCertSignature", f.CSig}, {"PrevHeaderHash", xx.prevHH}, {"EpochNonce", xx.nonce}, {"RegisteredVrfKeyHash", xx.reg}}
+		}
+		vhCall := func(f fields, xx vctx) func(a map[string][]byte) string {
+			return func(a map[string][]byte) string {
+				res := newValidator(xx).ValidateHeader(&consensus.ValidateHeaderInput{
+					Slot: f.Slot, BlockNumber: f.BlockNo, PrevHash: a["PrevHash"], IssuerVkey: a["IssuerVkey"], VrfKey: a["VrfKey"],
+					VrfProof: a["VrfProof"], VrfOutput: a["VrfOutput"], KesSignature: a["KesSignature"], HeaderBodyCbor: a["HeaderBodyCbor"],
+					NonceVrfProof: a["NonceVrfProof"], NonceVrfOutput: a["NonceVrfOutput"], OpCertHotVkey: a["OpCertHotVkey"],
+					OpCertSequenceNumber: uint32(f.Seq), OpCertKesPeriod: uint32(f.KPer), OpCertSignature: a["OpCertSignature"],
+					PrevSlot: xx.prevSlot, PrevBlockNumber: xx.prevBlockNo, PrevHeaderHash: a["PrevHeaderHash"], EpochNonce: a["EpochNonce"],
+					PoolStake: xx.pool, TotalStake: xx.total, RegisteredVrfKeyHash: a["RegisteredVrfKeyHash"]})
+				return fmt.Sprintf("failed=%v valid=%v out=%x", classifyVH(res.Errors), res.Valid, res.VrfOutput)
+			}
+		}
+		xr := x
+		xr.reg = h256(f.VrfKey)
+		// ValidateHeader, genuine: every layout call is also a case for the (value-based) model
+		cf.recordValidate(f, body, base.sig, xr, segsRaw)
+		rc.Kind = "ValidateHeader"
+		ref, n := runLayouts(r, "ValidateHeader", vhSpecs(f, base.sig, xr), vhCall(f, xr), viol, nil)
+		if ref != fmt.Sprintf("failed=[] valid=true out=%x", f.Out) {
+			viol("genuine-rejected", "ValidateHeader on the built header's own fields: "+ref)
+		}
+		cf.add(fmt.Sprintf("KValidate {| c_spk := %s; c_maxev := %s; c_mode := %s |} %s [] %s",
+			vh.N(xr.spk), vh.N(xr.maxev), modeCoq(xr.mode), cf.vinputCoq(f, body, base.sig, xr), vh.Opt(cf.bl(f.Out), true)), rc)
+		for k := 0; k < n; k++ {
+			count("layout-validateheader-genuine")
+		}
+		// ValidateHeader, a rejected header (counter changed): the same failed checks in every layout
+		f9 := f.clone()
+		f9.Seq = (f9.Seq + 1) % (1 << 32)
+		_, n = runLayouts(r, "ValidateHeader", vhSpecs(f9, base.sig, xr), vhCall(f9, xr), viol, nil)
+		for k := 0; k < n; k++ {
+			count("layout-validateheader-rejected")
+		}
+		// ledger.VerifyOpCertSignature / ValidateOpCert
+		_, n = runLayouts(r, "ValidateOpCert", []argSpec{{"KesVkey", f.Hot}, {"ColdSignature", f.CSig}, {"coldVkey", f.Issuer}}, func(a map[string][]byte) string {
+			t, err := ledger.ValidateOpCert(&ledger.OpCert{KesVkey: a["KesVkey"], IssueNumber: f.Seq, KesPeriod: f.KPer, ColdSignature: a["ColdSignature"]}, a["coldVkey"], f.Slot, x.spk, x.maxev)
+			e2 := ledger.VerifyOpCertSignature(&ledger.OpCert{KesVkey: a["KesVkey"], IssueNumber: f.Seq, KesPeriod: f.KPer, ColdSignature: a["ColdSignature"]}, a["coldVkey"])
+			return fmt.Sprintf("t=%d err=%v sigerr=%v", t, err != nil, e2 != nil)
+		}, viol, nil)
+		for k := 0; k < n; k++ {
+			count("layout-validateopcert")
+		}
+		// ledger.VerifyKesComponents
+		_, n = runLayouts(r, "VerifyKesComponents", []argSpec{{"bodyCbor", body}, {"signature", base.sig}, {"hotVkey", f.Hot}}, func(a map[string][]byte) string {
+			ok, err := ledger.VerifyKesComponents(a["bodyCbor"], a["signature"], a["hotVkey"], f.KPer, f.Slot, x.spk)
+			return fmt.Sprintf("%v %v", ok, err != nil)
+		}, viol, nil)
+		for k := 0; k < n; k++ {
+			count("layout-verifykescomponents")
+		}
+		// ledger.CreateOpCert with a 32-byte seed and with a 64-byte private key
+		for _, sk := range [][]byte{sc.pool.coldSeed, []byte(sc.pool.coldPriv)} {
+			_, n = runLayouts(r, fmt.Sprintf("CreateOpCert%d", len(sk)), []argSpec{{"kesVkey", f.Hot}, {"coldSkey", sk}}, func(a map[string][]byte) string {
+				o, err := ledger.CreateOpCert(a["kesVkey"], f.Seq, f.KPer, a["coldSkey"])
+				if err != nil {
+					return "error"
+				}
+				return fmt.Sprintf("%x %x", o.ColdSignature, o.KesVkey)
+			}, func(key, what string) {
+				viol(key, what)
+			}, func(l *laid, verdict string) {
+				if verdict != fmt.Sprintf("%x %x", f.CSig, f.Hot) {
+					viol("createopcert-differs-from-cold-signature", "CreateOpCert returned "+verdict)
+				}
+			})
+			for k := 0; k < n; k++ {
+				count("layout-createopcert")
+			}
+		}
+		// BlockBuilder.BuildHeader: the certificate, issuer key and the hashes in every layout; the header it
+		// returns (which aliases the caller's slices) is validated as it is
+		_, n = runLayouts(r, "BuildHeader", []argSpec{{"opCert.HotVkey", oc.HotVkey}, {"opCert.Signature", oc.Signature}, {"issuerVkey", sc.pool.coldPub},
+			{"poolId", make([]byte, 28)}, {"PrevHash", in.PrevHash}, {"EpochNonce", in.EpochNonce}, {"BlockBodyHash", in.BlockBodyHash}}, func(a map[string][]byte) string {
+			oc2 := &consensus.OperationalCert{HotVkey: a["opCert.HotVkey"], SequenceNumber: oc.SequenceNumber, KesPeriod: oc.KesPeriod, Signature: a["opCert.Signature"]}
+			in2 := in
+			in2.PrevHash, in2.EpochNonce, in2.BlockBodyHash = a["PrevHash"], a["EpochNonce"], a["BlockBodyHash"]
+			b := consensus.NewBlockBuilderWithMode(sc.pool.vrf, ks, oc2, a["poolId"], a["issuerVkey"], sc.f, sc.mode)
+			h2, _, err := b.BuildHeader(in2)
+			if err != nil {
+				return "build error: " + err.Error()
+			}
+			f2 := fieldsOf(h2)
+			w2 := wire{tpraos: tp, f: f2, sig: h2.Signature}
+			hb := h2.Body
+			res := newValidator(x).ValidateHeader(&consensus.ValidateHeaderInput{
+				Slot: hb.Slot, BlockNumber: hb.BlockNumber, PrevHash: hb.PrevHash, IssuerVkey: hb.IssuerVkey, VrfKey: hb.VrfKey,
+				VrfProof: hb.VrfProof, VrfOutput: hb.VrfOutput, KesSignature: h2.Signature, HeaderBodyCbor: w2.bodyBytes(),
+				NonceVrfProof: hb.NonceVrfProof, NonceVrfOutput: hb.NonceVrfOutput, OpCertHotVkey: hb.OpCertHotVkey,
+				OpCertSequenceNumber: hb.OpCertSequenceNumber, OpCertKesPeriod: hb.OpCertKesPeriod, OpCertSignature: hb.OpCertSignature,
+				PrevSlot: x.prevSlot, PrevBlockNumber: x.prevBlockNo, PrevHeaderHash: a["PrevHash"], EpochNonce: a["EpochNonce"],
+				PoolStake: x.pool, TotalStake: x.total})
+			return fmt.Sprintf("header=%x sig=%x validate: failed=%v valid=%v", h256(w2.bodyBytes()), h256(h2.Signature), classifyVH(res.Errors), res.Valid)
+		}, viol, func(l *laid, verdict string) {
+			want := fmt.Sprintf("header=%x sig=%x validate: failed=[] valid=true", h256(body), h256(base.sig))
+			if verdict != want {
+				viol("genuine-rejected", "BuildHeader+ValidateHeader with arguments laid out as "+l.kind+": "+verdict+" (expected "+want+")")
+			}
+		})
+		for k := 0; k < n; k++ {
+			count("layout-buildheader")
+		}
+	}
+
 	// --- unit cases of the ledger helpers on this scenario's certificate
 	if onlyClass == "" {
 		f := base.f
